@@ -79,6 +79,9 @@ func (m *Model) Check(e, res string) []common.Violation {
 		if m.on("C10") {
 			out = append(out, m.checkC10(i, po)...)
 		}
+		if m.Cfg.Props["C05"] {
+			out = append(out, m.checkC05(i, po)...)
+		}
 		if len(m.nodes[i].Log.Fatals) > 0 {
 			out = append(out, viol("C08", "C08.nofatal", "C08.fatal/"+kind+"/"+fatalClass(m.nodes[i].Log.Fatals[0]),
 				fmt.Sprintf("node %d would terminate (log.Fatal) after %s: %s", i, e, m.nodes[i].Log.Fatals[0]), nil))
@@ -595,6 +598,38 @@ func SnapshotOracles(w *world.LW, n *world.Node, props ...string) []common.Viola
 			out = append(out, m.checkC02(0, v)...)
 		case "C07":
 			out = append(out, m.checkC07State(0, v)...)
+		}
+	}
+	return out
+}
+
+// ---- C05 (ledger part): an amount that is not canonical is never accepted into the ledger ----
+
+func (m *Model) checkC05(i int, v view) []common.Violation {
+	var out []common.Violation
+	conf := v.confirmed()
+	for h, x := range v.all() {
+		m.counters["C05.vertices-inspected"]++
+		if x.Transaction.Spice.SupplementaryCurrency < spice.MaxAmountPerSupplementaryCurrency {
+			continue
+		}
+		how := "tentative-tip"
+		if conf[h] {
+			how = "confirmed"
+		}
+		who := "untrusted-sealer"
+		if m.trusted(v, x.SignerPublicAddress) {
+			who = "trusted-sealer"
+		}
+		if x.SignerPublicAddress == m.nodes[i].Actor.Addr {
+			who = "own-proposal"
+		}
+		out = append(out, viol("C05", "C05.ledger-canonical", "C05.noncanonical-amount-in-ledger/"+how+"/"+who,
+			fmt.Sprintf("node %d holds %s (%s, %s) whose amount %d.%d is not canonical", i, m.W.Ref.Name(h), how, who, x.Transaction.Spice.Currency, x.Transaction.Spice.SupplementaryCurrency), nil))
+	}
+	for _, p := range v.S.Parked {
+		if p.Vertex.Transaction.Spice.SupplementaryCurrency >= spice.MaxAmountPerSupplementaryCurrency {
+			m.counters["C05.noncanonical-parked"]++
 		}
 	}
 	return out
